@@ -148,7 +148,10 @@ def make_canon(now):
 
 
 BRANCHES = ["main", "develop", "develops", "release/1", "release/2.1", "release/x/12/3", "releases", "release-7", "release", "release/", "feature/foo",
-            "feature/42", "feature/a/007/b", "feature/99999999999/8", "hotfix/+7", "é/β", "", "1", "bugfix/0", "x/4294967295", "x/4294967296", "feat/12abc/3"]
+            "feature/42", "feature/a/007/b", "feature/99999999999/8", "hotfix/+7", "é/β", "", "1", "bugfix/0", "x/4294967295", "x/4294967296", "feat/12abc/3",
+            # letter-case variants of rule prefixes (rules are case-sensitive), multi-segment prefixes with digit segments, prefix look-alikes
+            "Release/2", "RELEASE/x", "release/X", "Develop", "DEVELOP", "Feature/42", "HotFix/7", "hotfix/7", "sprint/7/login/12", "sprint/7/0/x", "sprint/7/login",
+            "sprint/7", "sprint/7/", "sprint/70/1", "team/12/feature/3", "team/12/feature/x", "a/1/b/2/c/3", "x/y", "X/4", "feature/A/5"]
 
 
 def rand_rules(rng):
@@ -162,7 +165,7 @@ def rand_rules(rng):
         if k < 0.4:
             rs.append((rng.choice(["main", "develop", "release", "feature/foo", "1"]), lab, rng.randint(0, 9), mode))
         elif k < 0.85:
-            rs.append((rng.choice(["release/*", "feature/*", "x/*", "feature/a/*", "é/*"]), lab, None, mode))
+            rs.append((rng.choice(["release/*", "feature/*", "x/*", "feature/a/*", "é/*", "sprint/7/*", "team/12/feature/*", "hotfix/*", "a/1/b/*", "Release/*", "sprint/*"]), lab, None, mode))
         else:
             rs.append(("*", lab, None, mode))
     return rs
